@@ -1,0 +1,360 @@
+//go:build verif
+
+// Contracts for the contract-based verification in /verif (comment-only file).
+
+package router
+
+//@ import path "github.com/scionproto/scion/pkg/slayers/path"
+//@ import scion "github.com/scionproto/scion/pkg/slayers/path/scion"
+
+//@ # ---- abstract link attributes (model functions of a Link value)
+//@ spec func linkScope(l Link) LinkScope uninterpreted
+
+//@ iface Link.Scope
+//@   modifies nothing
+//@   ensures result == linkScope(self)
+
+//@ # ---- shared vocabulary
+//@ macro rawInv(s) = (scion.baseOK(s.PathMeta.SegLen[0], s.PathMeta.SegLen[1], s.PathMeta.SegLen[2], s.NumINF, s.NumHops) && s.PathMeta.CurrHF <= 63 && s.PathMeta.CurrINF <= 3 && len(s.Raw) == 4+s.NumINF*8+s.NumHops*12)
+//@ macro procInv(p) = (p.d != nil && p.pkt != nil && p.path != nil && p.mac != nil && len(p.macInputBuffer) >= 16 && !sameArray(p.macInputBuffer, p.path.Raw) && rawInv(p.path))
+//@ macro pathPosOK(s) = (int(s.PathMeta.CurrHF) < s.NumHops && int(s.PathMeta.CurrINF) < s.NumINF && s.PathMeta.CurrINF == scion.segOf(s.PathMeta.CurrHF, s.PathMeta.SegLen[0], s.PathMeta.SegLen[1]))
+//@ macro hopPtr(p) = uint16(12+addrLen(p.scionLayer.DstAddrType, p.scionLayer.SrcAddrType)+4+8*p.path.NumINF+12*int(p.path.PathMeta.CurrHF))
+//@ macro infPtr(p) = uint16(12+addrLen(p.scionLayer.DstAddrType, p.scionLayer.SrcAddrType)+4+8*int(p.path.PathMeta.CurrINF))
+//@ macro paramProblem(p, c, ptr) = (p.pkt.slowPathRequest.spType == 4 && p.pkt.slowPathRequest.code == c && p.pkt.slowPathRequest.pointer == ptr)
+//@ # address header length from the scion header documentation: 2*8 bytes of ISD-AS + (DL+1)*4 + (SL+1)*4
+//@ spec func addrLen(dt slayers.AddrType, st slayers.AddrType) int = 16+(int(dt&3)+1)*4+(int(st&3)+1)*4
+
+//@ func (*scionPacketProcessor).currentHopPointer
+//@   props C01 C06
+//@   requires p.path != nil
+//@   modifies nothing
+//@   ensures result == hopPtr(p)
+
+//@ func (*scionPacketProcessor).currentInfoPointer
+//@   props C06
+//@   requires p.path != nil
+//@   modifies nothing
+//@   ensures result == infPtr(p)
+
+//@ func (*scionPacketProcessor).egressInterface
+//@   props C06
+//@   modifies nothing
+//@   ensures result == ite(p.infoField.ConsDir, p.hopField.ConsEgress, p.hopField.ConsIngress)
+
+//@ # ---- C06 link-type rules, table written from the property statement
+//@ spec func intraSegOK(i topology.LinkType, e topology.LinkType) bool = (i == topology.Core && e == topology.Core) || (i == topology.Child && e == topology.Parent) || (i == topology.Parent && e == topology.Child) || (i == topology.Child && e == topology.Peer) || (i == topology.Peer && e == topology.Child)
+//@ spec func xoverOK(i topology.LinkType, e topology.LinkType) bool = (i == topology.Core && e == topology.Child) || (i == topology.Child && e == topology.Core) || (i == topology.Child && e == topology.Child)
+
+//@ func (*scionPacketProcessor).validateEgressID
+//@   props C06
+//@   requires p.d != nil && p.pkt != nil && p.path != nil
+//@   let eg = p.pkt.egress
+//@   let il = p.d.linkTypes[p.ingressFromLink]
+//@   let el = p.d.linkTypes[p.pkt.egress]
+//@   modifies p.pkt.slowPathRequest
+//@   ensures result == pForward || result == pSlowPath
+//@   ensures result == pForward ==> p.d.interfaces[eg] != nil
+//@   ensures result == pForward && p.ingressFromLink == 0 ==> linkScope(p.d.interfaces[eg]) == External
+//@   ensures result == pForward && p.ingressFromLink != 0 && !p.effectiveXover ==> intraSegOK(il, el)
+//@   ensures result == pForward && p.effectiveXover ==> xoverOK(il, el)
+//@   ensures result == pSlowPath ==> p.pkt.slowPathRequest.spType == 4 && (p.pkt.slowPathRequest.code == slayers.SCMPCodeUnknownHopFieldEgress || p.pkt.slowPathRequest.code == slayers.SCMPCodeUnknownHopFieldIngress || p.pkt.slowPathRequest.code == slayers.SCMPCodeInvalidPath || p.pkt.slowPathRequest.code == slayers.SCMPCodeInvalidSegmentChange)
+//@   ensures result == pSlowPath ==> (p.pkt.slowPathRequest.pointer == hopPtr(p) || p.pkt.slowPathRequest.pointer == infPtr(p))
+//@   ensures result == pForward ==> p.pkt.slowPathRequest == old(p.pkt.slowPathRequest)
+
+//@ # ---- C05 source / destination ISD-AS rules and transit spoofing
+//@ func (*scionPacketProcessor).respInvalidSrcIA
+//@   props C05
+//@   requires p.pkt != nil
+//@   modifies p.pkt.slowPathRequest
+//@   ensures result == pSlowPath && paramProblem(p, slayers.SCMPCodeInvalidSourceAddress, 20)
+
+//@ func (*scionPacketProcessor).respInvalidDstIA
+//@   props C05
+//@   requires p.pkt != nil
+//@   modifies p.pkt.slowPathRequest
+//@   ensures result == pSlowPath && paramProblem(p, slayers.SCMPCodeInvalidDestinationAddress, 12)
+
+//@ func (*scionPacketProcessor).validateSrcDstIA
+//@   props C05
+//@   requires p.d != nil && p.pkt != nil && p.path != nil
+//@   let srcLocal = p.scionLayer.SrcIA == p.d.localIA
+//@   let dstLocal = p.scionLayer.DstIA == p.d.localIA
+//@   let first = p.path.PathMeta.CurrHF == 0
+//@   let last = int(p.path.PathMeta.CurrHF) == p.path.NumHops-1
+//@   modifies p.pkt.slowPathRequest
+//@   ensures result == pForward || result == pSlowPath
+//@   ensures p.ingressFromLink != 0 && srcLocal ==> result == pSlowPath && paramProblem(p, slayers.SCMPCodeInvalidSourceAddress, 20)
+//@   ensures p.ingressFromLink != 0 && result == pForward ==> (last == dstLocal)
+//@   ensures p.ingressFromLink == 0 && result == pForward ==> (first ==> srcLocal) && !dstLocal
+//@   ensures result == pSlowPath ==> paramProblem(p, slayers.SCMPCodeInvalidSourceAddress, 20) || paramProblem(p, slayers.SCMPCodeInvalidDestinationAddress, 12)
+//@   ensures result == pForward ==> p.pkt.slowPathRequest == old(p.pkt.slowPathRequest)
+
+//@ # the interface through which the current hop says the packet entered this AS
+//@ func (*scionPacketProcessor).ingressInterface
+//@   props C05 C08
+//@   requires p.path != nil && rawInv(p.path) && pathPosOK(p.path)
+//@   let s = p.path
+//@   let afterX = !p.peering && s.PathMeta.CurrINF > 0 && s.PathMeta.CurrHF > 0 && scion.segOf(s.PathMeta.CurrHF-1, s.PathMeta.SegLen[0], s.PathMeta.SegLen[1]) == s.PathMeta.CurrINF-1
+//@   let ioff = 4+(int(s.PathMeta.CurrINF)-1)*8
+//@   let hoff = 4+s.NumINF*8+(int(s.PathMeta.CurrHF)-1)*12
+//@   modifies nothing
+//@   ensures !afterX ==> result == ite(p.infoField.ConsDir, p.hopField.ConsIngress, p.hopField.ConsEgress)
+//@   ensures afterX ==> result == ite(s.Raw[ioff]&1 == 1, uint16(s.Raw[hoff+2])<<8|uint16(s.Raw[hoff+3]), uint16(s.Raw[hoff+4])<<8|uint16(s.Raw[hoff+5]))
+
+//@ func (*scionPacketProcessor).validateTransitUnderlaySrc
+//@   props C05
+//@   requires p.d != nil && p.pkt != nil && p.pkt.Link != nil && p.path != nil && rawInv(p.path) && pathPosOK(p.path)
+//@   let s = p.path
+//@   let afterX = !p.peering && s.PathMeta.CurrINF > 0 && s.PathMeta.CurrHF > 0 && scion.segOf(s.PathMeta.CurrHF-1, s.PathMeta.SegLen[0], s.PathMeta.SegLen[1]) == s.PathMeta.CurrINF-1
+//@   let ioff = 4+(int(s.PathMeta.CurrINF)-1)*8
+//@   let hoff = 4+s.NumINF*8+(int(s.PathMeta.CurrHF)-1)*12
+//@   let ingIf = ite(afterX, ite(s.Raw[ioff]&1 == 1, uint16(s.Raw[hoff+2])<<8|uint16(s.Raw[hoff+3]), uint16(s.Raw[hoff+4])<<8|uint16(s.Raw[hoff+5])), ite(p.infoField.ConsDir, p.hopField.ConsIngress, p.hopField.ConsEgress))
+//@   modifies nothing
+//@   ensures result == pForward || result == pDiscard
+//@   ensures p.ingressFromLink == 0 && p.path.PathMeta.CurrHF != 0 && result == pForward ==> p.pkt.Link == p.d.interfaces[ingIf] && linkScope(p.pkt.Link) == Sibling
+
+//@ # ---- byte-level views of the raw path (same text as in pkg/slayers/path/scion)
+//@ macro hopAt(h, raw, off) = (h.EgressRouterAlert == (raw[off]&1 == 1) && h.IngressRouterAlert == (raw[off]&2 == 2) && h.ExpTime == raw[off+1] && h.ConsIngress == uint16(raw[off+2])<<8|uint16(raw[off+3]) && h.ConsEgress == uint16(raw[off+4])<<8|uint16(raw[off+5]) && h.Mac[0] == raw[off+6] && h.Mac[1] == raw[off+7] && h.Mac[2] == raw[off+8] && h.Mac[3] == raw[off+9] && h.Mac[4] == raw[off+10] && h.Mac[5] == raw[off+11])
+//@ macro infoAt(f, raw, off) = (f.ConsDir == (raw[off]&1 == 1) && f.Peer == (raw[off]&2 == 2) && f.SegID == uint16(raw[off+2])<<8|uint16(raw[off+3]) && f.Timestamp == uint32(raw[off+4])<<24|uint32(raw[off+5])<<16|uint32(raw[off+6])<<8|uint32(raw[off+7]))
+//@ macro hopAtOld(h, raw, off) = (h.EgressRouterAlert == (old(raw[off])&1 == 1) && h.IngressRouterAlert == (old(raw[off])&2 == 2) && h.ExpTime == old(raw[off+1]) && h.ConsIngress == uint16(old(raw[off+2]))<<8|uint16(old(raw[off+3])) && h.ConsEgress == uint16(old(raw[off+4]))<<8|uint16(old(raw[off+5])) && h.Mac[0] == old(raw[off+6]) && h.Mac[1] == old(raw[off+7]) && h.Mac[2] == old(raw[off+8]) && h.Mac[3] == old(raw[off+9]) && h.Mac[4] == old(raw[off+10]) && h.Mac[5] == old(raw[off+11]))
+//@ macro infoAtOld(f, raw, off) = (f.ConsDir == (old(raw[off])&1 == 1) && f.Peer == (old(raw[off])&2 == 2) && f.SegID == uint16(old(raw[off+2]))<<8|uint16(old(raw[off+3])) && f.Timestamp == uint32(old(raw[off+4]))<<24|uint32(old(raw[off+5]))<<16|uint32(old(raw[off+6]))<<8|uint32(old(raw[off+7])))
+//@ macro infoBytes(raw, off, f) = (raw[off] == ite(f.ConsDir, 1, 0)|ite(f.Peer, 2, 0) && raw[off+1] == 0 && raw[off+2] == uint8(f.SegID>>8) && raw[off+3] == uint8(f.SegID) && raw[off+4] == uint8(f.Timestamp>>24) && raw[off+5] == uint8(f.Timestamp>>16) && raw[off+6] == uint8(f.Timestamp>>8) && raw[off+7] == uint8(f.Timestamp))
+//@ macro hopBytes(raw, off, h) = (raw[off] == ite(h.EgressRouterAlert, 1, 0)|ite(h.IngressRouterAlert, 2, 0) && raw[off+1] == h.ExpTime && raw[off+2] == uint8(h.ConsIngress>>8) && raw[off+3] == uint8(h.ConsIngress) && raw[off+4] == uint8(h.ConsEgress>>8) && raw[off+5] == uint8(h.ConsEgress) && raw[off+6] == h.Mac[0] && raw[off+7] == h.Mac[1] && raw[off+8] == h.Mac[2] && raw[off+9] == h.Mac[3] && raw[off+10] == h.Mac[4] && raw[off+11] == h.Mac[5])
+//@ macro hopOff(s) = (4+s.NumINF*8+int(s.PathMeta.CurrHF)*12)
+//@ macro infOff(s) = (4+int(s.PathMeta.CurrINF)*8)
+//@ macro macMatches(p) = (p.hopField.Mac[0] == path.macByte(path.hkey(p.mac), p.infoField.SegID, p.infoField.Timestamp, p.hopField.ExpTime, p.hopField.ConsIngress, p.hopField.ConsEgress, 0) && p.hopField.Mac[1] == path.macByte(path.hkey(p.mac), p.infoField.SegID, p.infoField.Timestamp, p.hopField.ExpTime, p.hopField.ConsIngress, p.hopField.ConsEgress, 1) && p.hopField.Mac[2] == path.macByte(path.hkey(p.mac), p.infoField.SegID, p.infoField.Timestamp, p.hopField.ExpTime, p.hopField.ConsIngress, p.hopField.ConsEgress, 2) && p.hopField.Mac[3] == path.macByte(path.hkey(p.mac), p.infoField.SegID, p.infoField.Timestamp, p.hopField.ExpTime, p.hopField.ConsIngress, p.hopField.ConsEgress, 3) && p.hopField.Mac[4] == path.macByte(path.hkey(p.mac), p.infoField.SegID, p.infoField.Timestamp, p.hopField.ExpTime, p.hopField.ConsIngress, p.hopField.ConsEgress, 4) && p.hopField.Mac[5] == path.macByte(path.hkey(p.mac), p.infoField.SegID, p.infoField.Timestamp, p.hopField.ExpTime, p.hopField.ConsIngress, p.hopField.ConsEgress, 5))
+//@ spec func isPeerHop(peer bool, hf uint8, l0 uint8) bool = peer && (hf == l0-1 || hf == l0)
+//@ # expiry instant of a hop in Unix nanoseconds: Timestamp + (1+ExpTime)*(24*60*60)/256 s (hop field documentation)
+//@ spec func hopDeadline(ts uint32, exp uint8) int64 = opaque int64(ts)*1000000000+(int64(exp)+1)*337500000000
+//@ # clock reading used by the expiry check of hop k during the current call
+//@ ghost var expNow map[uint8]int64
+
+//@ func (*scionPacketProcessor).parsePath
+//@   props C01 C08
+//@   requires p.path != nil && rawInv(p.path)
+//@   modifies p.hopField, p.infoField
+//@   ensures result == pForward || result == pDiscard
+//@   ensures result == pForward ==> pathPosOK(p.path) && hopAt(p.hopField, p.path.Raw, hopOff(p.path)) && infoAt(p.infoField, p.path.Raw, infOff(p.path))
+
+//@ func (*scionPacketProcessor).determinePeer
+//@   props C01 C22
+//@   requires p.path != nil
+//@   modifies p.peering
+//@   ensures result == pForward || result == pDiscard
+//@   ensures result == pForward ==> p.peering == isPeerHop(p.infoField.Peer, p.path.PathMeta.CurrHF, p.path.PathMeta.SegLen[0])
+//@   ensures result == pForward && p.infoField.Peer ==> p.path.PathMeta.SegLen[0] != 0 && p.path.PathMeta.SegLen[1] != 0 && p.path.PathMeta.SegLen[2] == 0
+
+//@ func (*scionPacketProcessor).validateHopExpiry
+//@   props C01
+//@   reveal hopDeadline
+//@   requires p.pkt != nil && p.path != nil
+//@   modifies p.pkt.slowPathRequest, time.lastNow
+//@   gset expNow[p.path.PathMeta.CurrHF] := time.lastNow
+//@   ensures time.lastNow >= old(time.lastNow)
+//@   ensures (result == pForward) == !(hopDeadline(p.infoField.Timestamp, p.hopField.ExpTime) < time.lastNow)
+//@   ensures result != pForward ==> result == pSlowPath && paramProblem(p, slayers.SCMPCodePathExpired, hopPtr(p))
+//@   ensures result == pForward ==> p.pkt.slowPathRequest == old(p.pkt.slowPathRequest)
+
+//@ func (*scionPacketProcessor).validateIngressID
+//@   props C01 C05
+//@   requires p.pkt != nil && p.path != nil
+//@   let ing = ite(p.infoField.ConsDir, p.hopField.ConsIngress, p.hopField.ConsEgress)
+//@   modifies p.pkt.slowPathRequest
+//@   ensures (result == pForward) == (p.ingressFromLink == 0 || p.ingressFromLink == ing)
+//@   ensures result != pForward ==> result == pSlowPath && paramProblem(p, ite(p.infoField.ConsDir, slayers.SCMPCodeUnknownHopFieldIngress, slayers.SCMPCodeUnknownHopFieldEgress), hopPtr(p))
+//@   ensures result == pForward ==> p.pkt.slowPathRequest == old(p.pkt.slowPathRequest)
+
+//@ func (*scionPacketProcessor).validatePktLen
+//@   props C08
+//@   requires p.pkt != nil
+//@   modifies p.pkt.slowPathRequest
+//@   ensures (result == pForward) == (int(p.scionLayer.PayloadLen) == len(p.scionLayer.Payload))
+//@   ensures result != pForward ==> result == pSlowPath && paramProblem(p, slayers.SCMPCodeInvalidPacketSize, 0)
+//@   ensures result == pForward ==> p.pkt.slowPathRequest == old(p.pkt.slowPathRequest)
+
+//@ func (*scionPacketProcessor).validateSrcHost
+//@   props C05
+//@   requires p.pkt != nil && p.d != nil
+//@   modifies p.pkt.slowPathRequest
+//@   ensures result == pForward || (result == pSlowPath && p.pkt.slowPathRequest.spType == 4 && p.pkt.slowPathRequest.code == slayers.SCMPCodeInvalidSourceAddress)
+//@   ensures result == pForward ==> p.pkt.slowPathRequest == old(p.pkt.slowPathRequest)
+
+//@ func (*scionPacketProcessor).updateNonConsDirIngressSegID
+//@   props C01 C22 C07
+//@   requires p.path != nil && rawInv(p.path) && pathPosOK(p.path)
+//@   let upd = !p.infoField.ConsDir && p.ingressFromLink != 0 && !p.peering
+//@   modifies p.infoField.SegID, arr(p.path.Raw)
+//@   ensures result == pForward
+//@   ensures p.infoField.SegID == ite(upd, old(p.infoField.SegID)^(uint16(p.hopField.Mac[0])<<8|uint16(p.hopField.Mac[1])), old(p.infoField.SegID))
+//@   ensures upd ==> arrUpd(p.path.Raw, infOff(p.path), ite(p.infoField.ConsDir, 1, 0)|ite(p.infoField.Peer, 2, 0), 0, uint8(p.infoField.SegID>>8), uint8(p.infoField.SegID), uint8(p.infoField.Timestamp>>24), uint8(p.infoField.Timestamp>>16), uint8(p.infoField.Timestamp>>8), uint8(p.infoField.Timestamp))
+//@   ensures !upd ==> arrSame(p.path.Raw)
+
+//@ func (*scionPacketProcessor).verifyCurrentMAC
+//@   props C01 C04
+//@   requires procInv(p)
+//@   modifies p.cachedMac, p.pkt.slowPathRequest, arr(p.macInputBuffer), path.hashSt
+//@   ensures result == pForward || result == pSlowPath
+//@   ensures result == pForward ==> macMatches(p)
+//@   ensures result == pForward ==> len(p.cachedMac) == 16 && p.cachedMac[0] == path.macByte(path.hkey(p.mac), p.infoField.SegID, p.infoField.Timestamp, p.hopField.ExpTime, p.hopField.ConsIngress, p.hopField.ConsEgress, 0) && p.cachedMac[1] == path.macByte(path.hkey(p.mac), p.infoField.SegID, p.infoField.Timestamp, p.hopField.ExpTime, p.hopField.ConsIngress, p.hopField.ConsEgress, 1) && p.cachedMac[2] == path.macByte(path.hkey(p.mac), p.infoField.SegID, p.infoField.Timestamp, p.hopField.ExpTime, p.hopField.ConsIngress, p.hopField.ConsEgress, 2) && p.cachedMac[3] == path.macByte(path.hkey(p.mac), p.infoField.SegID, p.infoField.Timestamp, p.hopField.ExpTime, p.hopField.ConsIngress, p.hopField.ConsEgress, 3) && p.cachedMac[4] == path.macByte(path.hkey(p.mac), p.infoField.SegID, p.infoField.Timestamp, p.hopField.ExpTime, p.hopField.ConsIngress, p.hopField.ConsEgress, 4) && p.cachedMac[5] == path.macByte(path.hkey(p.mac), p.infoField.SegID, p.infoField.Timestamp, p.hopField.ExpTime, p.hopField.ConsIngress, p.hopField.ConsEgress, 5) && p.cachedMac[6] == path.macByte(path.hkey(p.mac), p.infoField.SegID, p.infoField.Timestamp, p.hopField.ExpTime, p.hopField.ConsIngress, p.hopField.ConsEgress, 6) && p.cachedMac[7] == path.macByte(path.hkey(p.mac), p.infoField.SegID, p.infoField.Timestamp, p.hopField.ExpTime, p.hopField.ConsIngress, p.hopField.ConsEgress, 7) && p.cachedMac[8] == path.macByte(path.hkey(p.mac), p.infoField.SegID, p.infoField.Timestamp, p.hopField.ExpTime, p.hopField.ConsIngress, p.hopField.ConsEgress, 8) && p.cachedMac[9] == path.macByte(path.hkey(p.mac), p.infoField.SegID, p.infoField.Timestamp, p.hopField.ExpTime, p.hopField.ConsIngress, p.hopField.ConsEgress, 9) && p.cachedMac[10] == path.macByte(path.hkey(p.mac), p.infoField.SegID, p.infoField.Timestamp, p.hopField.ExpTime, p.hopField.ConsIngress, p.hopField.ConsEgress, 10) && p.cachedMac[11] == path.macByte(path.hkey(p.mac), p.infoField.SegID, p.infoField.Timestamp, p.hopField.ExpTime, p.hopField.ConsIngress, p.hopField.ConsEgress, 11) && p.cachedMac[12] == path.macByte(path.hkey(p.mac), p.infoField.SegID, p.infoField.Timestamp, p.hopField.ExpTime, p.hopField.ConsIngress, p.hopField.ConsEgress, 12) && p.cachedMac[13] == path.macByte(path.hkey(p.mac), p.infoField.SegID, p.infoField.Timestamp, p.hopField.ExpTime, p.hopField.ConsIngress, p.hopField.ConsEgress, 13) && p.cachedMac[14] == path.macByte(path.hkey(p.mac), p.infoField.SegID, p.infoField.Timestamp, p.hopField.ExpTime, p.hopField.ConsIngress, p.hopField.ConsEgress, 14) && p.cachedMac[15] == path.macByte(path.hkey(p.mac), p.infoField.SegID, p.infoField.Timestamp, p.hopField.ExpTime, p.hopField.ConsIngress, p.hopField.ConsEgress, 15)
+//@   ensures result == pSlowPath ==> paramProblem(p, slayers.SCMPCodeInvalidHopFieldMAC, hopPtr(p))
+//@   ensures result == pSlowPath ==> !macMatches(p)
+//@   ensures result == pForward ==> p.pkt.slowPathRequest == old(p.pkt.slowPathRequest)
+
+//@ # ---- C15: the up/down decision reads the link state on every packet
+//@ ghost var lastIsUp bool
+//@ ghost var lastIsUpLink Link
+//@ iface Link.IsUp
+//@   modifies nothing
+//@   gset lastIsUp := result
+//@   gset lastIsUpLink := self
+
+//@ func (*scionPacketProcessor).validateEgressUp
+//@   props C15
+//@   requires p.d != nil && p.pkt != nil && p.d.interfaces[p.pkt.egress] != nil
+//@   let link = p.d.interfaces[p.pkt.egress]
+//@   modifies p.pkt.slowPathRequest, lastIsUp, lastIsUpLink
+//@   ensures lastIsUpLink == link
+//@   ensures (result == pForward) == lastIsUp
+//@   ensures result != pForward ==> result == pSlowPath && p.pkt.slowPathRequest.code == 0 && p.pkt.slowPathRequest.spType == ite(linkScope(link) == External, slowPathType(slayers.SCMPTypeExternalInterfaceDown), slowPathType(slayers.SCMPTypeInternalConnectivityDown))
+//@   ensures result == pForward ==> p.pkt.slowPathRequest == old(p.pkt.slowPathRequest)
+
+//@ # ---- router alerts (C10, C07): only the flag of the interface this router owns is consumed
+//@ func (*scionPacketProcessor).handleIngressRouterAlert
+//@   props C10 C07
+//@   requires p.pkt != nil && p.path != nil && rawInv(p.path) && pathPosOK(p.path)
+//@   let flag = ite(p.infoField.ConsDir, p.hopField.IngressRouterAlert, p.hopField.EgressRouterAlert)
+//@   let fire = p.ingressFromLink != 0 && flag
+//@   modifies p.hopField.IngressRouterAlert, p.hopField.EgressRouterAlert, arr(p.path.Raw), p.pkt.slowPathRequest
+//@   ensures result == ite(fire, pSlowPath, pForward)
+//@   ensures fire ==> p.pkt.slowPathRequest.spType == slowPathRouterAlertIngress
+//@   ensures fire ==> p.hopField.IngressRouterAlert == (old(p.hopField.IngressRouterAlert) && !p.infoField.ConsDir) && p.hopField.EgressRouterAlert == (old(p.hopField.EgressRouterAlert) && p.infoField.ConsDir)
+//@   ensures fire ==> arrUpd(p.path.Raw, hopOff(p.path), ite(p.hopField.EgressRouterAlert, 1, 0)|ite(p.hopField.IngressRouterAlert, 2, 0), p.hopField.ExpTime, uint8(p.hopField.ConsIngress>>8), uint8(p.hopField.ConsIngress), uint8(p.hopField.ConsEgress>>8), uint8(p.hopField.ConsEgress), p.hopField.Mac[0], p.hopField.Mac[1], p.hopField.Mac[2], p.hopField.Mac[3], p.hopField.Mac[4], p.hopField.Mac[5])
+//@   ensures !fire ==> p.hopField == old(p.hopField) && p.pkt.slowPathRequest == old(p.pkt.slowPathRequest) && arrSame(p.path.Raw)
+
+//@ func (*scionPacketProcessor).handleEgressRouterAlert
+//@   props C10 C07
+//@   requires p.d != nil && p.pkt != nil && p.path != nil && rawInv(p.path) && pathPosOK(p.path) && p.d.interfaces[p.pkt.egress] != nil
+//@   let flag = ite(p.infoField.ConsDir, p.hopField.EgressRouterAlert, p.hopField.IngressRouterAlert)
+//@   let fire = flag && linkScope(p.d.interfaces[p.pkt.egress]) == External
+//@   modifies p.hopField.IngressRouterAlert, p.hopField.EgressRouterAlert, arr(p.path.Raw), p.pkt.slowPathRequest
+//@   ensures result == ite(fire, pSlowPath, pForward)
+//@   ensures fire ==> p.pkt.slowPathRequest.spType == slowPathRouterAlertEgress
+//@   ensures fire ==> p.hopField.EgressRouterAlert == (old(p.hopField.EgressRouterAlert) && !p.infoField.ConsDir) && p.hopField.IngressRouterAlert == (old(p.hopField.IngressRouterAlert) && p.infoField.ConsDir)
+//@   ensures fire ==> arrUpd(p.path.Raw, hopOff(p.path), ite(p.hopField.EgressRouterAlert, 1, 0)|ite(p.hopField.IngressRouterAlert, 2, 0), p.hopField.ExpTime, uint8(p.hopField.ConsIngress>>8), uint8(p.hopField.ConsIngress), uint8(p.hopField.ConsEgress>>8), uint8(p.hopField.ConsEgress), p.hopField.Mac[0], p.hopField.Mac[1], p.hopField.Mac[2], p.hopField.Mac[3], p.hopField.Mac[4], p.hopField.Mac[5])
+//@   ensures !fire ==> p.hopField == old(p.hopField) && p.pkt.slowPathRequest == old(p.pkt.slowPathRequest) && arrSame(p.path.Raw)
+
+//@ # ---- segment switch and egress processing (C01, C07, C19, C22)
+//@ macro metaBytes(raw, m) = (raw[0] == m.CurrINF<<6|m.CurrHF&0x3f && raw[1] == (m.SegLen[0]&0x3f)>>4 && raw[2] == (m.SegLen[0]&0xf)<<4|(m.SegLen[1]&0x3f)>>2 && raw[3] == (m.SegLen[1]&0x3)<<6|m.SegLen[2]&0x3f)
+
+//@ func (*scionPacketProcessor).doXover
+//@   props C01 C07 C19
+//@   requires p.path != nil && rawInv(p.path) && pathPosOK(p.path)
+//@   # call-site condition: doXover is only entered at a segment boundary (IsXover() returned true)
+//@   requires int(p.path.PathMeta.CurrHF)+1 < p.path.NumHops && p.path.PathMeta.CurrINF != scion.segOf(p.path.PathMeta.CurrHF+1, p.path.PathMeta.SegLen[0], p.path.PathMeta.SegLen[1])
+//@   let s = p.path
+//@   let hf = s.PathMeta.CurrHF
+//@   let inf = s.PathMeta.CurrINF
+//@   modifies p.effectiveXover, p.path.PathMeta, arr(p.path.Raw), p.hopField, p.infoField
+//@   let ho = hopOff(p.path)
+//@   let io = infOff(p.path)
+//@   ensures result == pForward ==> s.PathMeta.CurrINF == inf+1
+//@   ensures result == pForward ==> hopAtOld(p.hopField, s.Raw, ho+12) && infoAtOld(p.infoField, s.Raw, io+8)
+//@   ensures result == pForward || result == pDiscard
+//@   ensures p.effectiveXover
+//@   ensures result == pForward ==> s.PathMeta.CurrHF == hf+1 && pathPosOK(s) && rawInv(s)
+//@   ensures result == pForward ==> hopAt(p.hopField, s.Raw, hopOff(s)) && infoAt(p.infoField, s.Raw, infOff(s))
+//@   ensures s.PathMeta.SegLen == old(s.PathMeta.SegLen)
+//@   ensures int(hf)+1 < s.NumHops ==> arrUpd(s.Raw, 0, s.PathMeta.CurrINF<<6|s.PathMeta.CurrHF&0x3f, (s.PathMeta.SegLen[0]&0x3f)>>4, (s.PathMeta.SegLen[0]&0xf)<<4|(s.PathMeta.SegLen[1]&0x3f)>>2, (s.PathMeta.SegLen[1]&0x3)<<6|s.PathMeta.SegLen[2]&0x3f)
+//@   ensures int(hf)+1 >= s.NumHops ==> arrSame(s.Raw)
+
+//@ func (*scionPacketProcessor).processEgress
+//@   props C01 C07 C22
+//@   requires p.path != nil && rawInv(p.path) && pathPosOK(p.path)
+//@   let s = p.path
+//@   let hf = s.PathMeta.CurrHF
+//@   let io = infOff(p.path)
+//@   let upd = p.infoField.ConsDir && !p.peering
+//@   let newSeg = ite(upd, p.infoField.SegID^(uint16(p.hopField.Mac[0])<<8|uint16(p.hopField.Mac[1])), p.infoField.SegID)
+//@   modifies p.infoField.SegID, p.path.PathMeta, arr(p.path.Raw)
+//@   ensures (result == pForward) == (int(hf)+1 < s.NumHops)
+//@   ensures result != pForward ==> result == pDiscard
+//@   ensures p.infoField.SegID == newSeg
+//@   ensures result == pForward ==> s.PathMeta.CurrHF == hf+1 && s.PathMeta.CurrINF == scion.segOf(hf+1, s.PathMeta.SegLen[0], s.PathMeta.SegLen[1])
+//@   ensures s.PathMeta.SegLen == old(s.PathMeta.SegLen)
+//@   ensures result == pForward && upd ==> arrUpd(s.Raw, io, ite(p.infoField.ConsDir, 1, 0)|ite(p.infoField.Peer, 2, 0), 0, uint8(p.infoField.SegID>>8), uint8(p.infoField.SegID), uint8(p.infoField.Timestamp>>24), uint8(p.infoField.Timestamp>>16), uint8(p.infoField.Timestamp>>8), uint8(p.infoField.Timestamp), at(0), s.PathMeta.CurrINF<<6|s.PathMeta.CurrHF&0x3f, (s.PathMeta.SegLen[0]&0x3f)>>4, (s.PathMeta.SegLen[0]&0xf)<<4|(s.PathMeta.SegLen[1]&0x3f)>>2, (s.PathMeta.SegLen[1]&0x3)<<6|s.PathMeta.SegLen[2]&0x3f)
+//@   ensures result == pForward && !upd ==> arrUpd(s.Raw, 0, s.PathMeta.CurrINF<<6|s.PathMeta.CurrHF&0x3f, (s.PathMeta.SegLen[0]&0x3f)>>4, (s.PathMeta.SegLen[0]&0xf)<<4|(s.PathMeta.SegLen[1]&0x3f)>>2, (s.PathMeta.SegLen[1]&0x3)<<6|s.PathMeta.SegLen[2]&0x3f)
+//@   ensures result != pForward && upd ==> arrUpd(s.Raw, io, ite(p.infoField.ConsDir, 1, 0)|ite(p.infoField.Peer, 2, 0), 0, uint8(p.infoField.SegID>>8), uint8(p.infoField.SegID), uint8(p.infoField.Timestamp>>24), uint8(p.infoField.Timestamp>>16), uint8(p.infoField.Timestamp>>8), uint8(p.infoField.Timestamp))
+//@   ensures result != pForward && !upd ==> arrSame(s.Raw)
+
+//@ # ---- local delivery (contract only here; the port logic is verified under C11)
+//@ func (*scionPacketProcessor).resolveInbound
+//@   requires p.d != nil && p.pkt != nil
+//@   modifies p.pkt.slowPathRequest, p.pkt.RemoteAddr
+//@   ensures result == pForward || result == pSlowPath || result == pDiscard
+//@   ensures result == pSlowPath ==> p.pkt.slowPathRequest.pointer == 0 && ((p.pkt.slowPathRequest.spType == slowPathType(slayers.SCMPTypeDestinationUnreachable) && p.pkt.slowPathRequest.code == slayers.SCMPCodeNoRoute) || (p.pkt.slowPathRequest.spType == 4 && p.pkt.slowPathRequest.code == slayers.SCMPCodeInvalidDestinationAddress))
+
+//@ # ---- the fast path: top-level obligations of C01, C04, C05, C06, C15 (from the property statements)
+//@ func (*scionPacketProcessor).process
+//@   props C01 C04 C05 C06 C15
+//@   maxpaths 20000
+//@   requires procInv(p) && p.pkt.Link != nil && !p.effectiveXover
+//@   let s = p.path
+//@   let l0 = s.PathMeta.SegLen[0]
+//@   let l1 = s.PathMeta.SegLen[1]
+//@   let k0 = s.PathMeta.CurrHF
+//@   let i0 = s.PathMeta.CurrINF
+//@   let f0 = 4+int(i0)*8
+//@   let h0 = 4+s.NumINF*8+int(k0)*12
+//@   let f1 = f0+8
+//@   let h1 = h0+12
+//@   let cons0 = s.Raw[f0]&1 == 1
+//@   let peering0 = isPeerHop(s.Raw[f0]&2 == 2, k0, l0)
+//@   let seg0 = uint16(s.Raw[f0+2])<<8|uint16(s.Raw[f0+3])
+//@   let ts0 = uint32(s.Raw[f0+4])<<24|uint32(s.Raw[f0+5])<<16|uint32(s.Raw[f0+6])<<8|uint32(s.Raw[f0+7])
+//@   let exp0 = s.Raw[h0+1]
+//@   let in0 = uint16(s.Raw[h0+2])<<8|uint16(s.Raw[h0+3])
+//@   let eg0 = uint16(s.Raw[h0+4])<<8|uint16(s.Raw[h0+5])
+//@   let m00 = s.Raw[h0+6]
+//@   let m01 = s.Raw[h0+7]
+//@   let m02 = s.Raw[h0+8]
+//@   let m03 = s.Raw[h0+9]
+//@   let m04 = s.Raw[h0+10]
+//@   let m05 = s.Raw[h0+11]
+//@   let segChk0 = ite(!cons0 && p.ingressFromLink != 0 && !peering0, seg0^(uint16(m00)<<8|uint16(m01)), seg0)
+//@   let seg1 = uint16(s.Raw[f1+2])<<8|uint16(s.Raw[f1+3])
+//@   let ts1 = uint32(s.Raw[f1+4])<<24|uint32(s.Raw[f1+5])<<16|uint32(s.Raw[f1+6])<<8|uint32(s.Raw[f1+7])
+//@   let exp1 = s.Raw[h1+1]
+//@   let in1 = uint16(s.Raw[h1+2])<<8|uint16(s.Raw[h1+3])
+//@   let eg1 = uint16(s.Raw[h1+4])<<8|uint16(s.Raw[h1+5])
+//@   let m10 = s.Raw[h1+6]
+//@   let m11 = s.Raw[h1+7]
+//@   let m12 = s.Raw[h1+8]
+//@   let m13 = s.Raw[h1+9]
+//@   let m14 = s.Raw[h1+10]
+//@   let m15 = s.Raw[h1+11]
+//@   let key = path.hkey(p.mac)
+//@   let srcLocal = p.scionLayer.SrcIA == p.d.localIA
+//@   let dstLocal = p.scionLayer.DstIA == p.d.localIA
+//@   let first = k0 == 0
+//@   let last = int(k0) == s.NumHops-1
+//@   let fromInside = p.ingressFromLink == 0
+//@   # C01 (i): the current hop carries a valid MAC for the accumulator value the documentation prescribes
+//@   ensures result == pForward ==> m00 == path.macByte(key, segChk0, ts0, exp0, in0, eg0, 0) && m01 == path.macByte(key, segChk0, ts0, exp0, in0, eg0, 1) && m02 == path.macByte(key, segChk0, ts0, exp0, in0, eg0, 2) && m03 == path.macByte(key, segChk0, ts0, exp0, in0, eg0, 3) && m04 == path.macByte(key, segChk0, ts0, exp0, in0, eg0, 4) && m05 == path.macByte(key, segChk0, ts0, exp0, in0, eg0, 5)
+//@   # C01 (ii): and has not expired at a clock reading taken during this call
+//@   ensures result == pForward ==> !(hopDeadline(ts0, exp0) < expNow[k0]) && expNow[k0] >= old(time.lastNow)
+//@   # C01 (iii): at an effective cross-over the first hop of the next segment is checked the same way
+//@   ensures result == pForward && p.effectiveXover ==> m10 == path.macByte(key, seg1, ts1, exp1, in1, eg1, 0) && m11 == path.macByte(key, seg1, ts1, exp1, in1, eg1, 1) && m12 == path.macByte(key, seg1, ts1, exp1, in1, eg1, 2) && m13 == path.macByte(key, seg1, ts1, exp1, in1, eg1, 3) && m14 == path.macByte(key, seg1, ts1, exp1, in1, eg1, 4) && m15 == path.macByte(key, seg1, ts1, exp1, in1, eg1, 5)
+//@   ensures result == pForward && p.effectiveXover ==> !(hopDeadline(ts1, exp1) < expNow[k0+1]) && expNow[k0+1] >= old(time.lastNow)
+//@   # C01 (iv): MAC / expiry failures are answered with a parameter problem pointing at the offending hop field
+//@   ensures result == pSlowPath && p.pkt.slowPathRequest.spType == 4 && (p.pkt.slowPathRequest.code == slayers.SCMPCodeInvalidHopFieldMAC || p.pkt.slowPathRequest.code == slayers.SCMPCodePathExpired) ==> p.pkt.slowPathRequest.pointer == hopPtr(p) && (s.PathMeta.CurrHF == k0 || (p.effectiveXover && s.PathMeta.CurrHF == k0+1))
+//@   # C05
+//@   ensures !fromInside && srcLocal ==> result != pForward
+//@   ensures !fromInside && result == pForward ==> (dstLocal == last) && ((p.pkt.trafficType == ttIn) == dstLocal)
+//@   ensures fromInside && result == pForward ==> (first ==> srcLocal) && !dstLocal && p.pkt.trafficType != ttIn
+//@   ensures fromInside && !first && result == pForward ==> linkScope(p.pkt.Link) == Sibling
+//@   # C06
+//@   ensures result == pForward && !dstLocal ==> p.d.interfaces[p.pkt.egress] != nil && (fromInside ==> linkScope(p.d.interfaces[p.pkt.egress]) == External)
+//@   ensures result == pForward && !dstLocal && !fromInside && !p.effectiveXover ==> intraSegOK(p.d.linkTypes[p.ingressFromLink], p.d.linkTypes[p.pkt.egress])
+//@   ensures result == pForward && !dstLocal && p.effectiveXover ==> xoverOK(p.d.linkTypes[p.ingressFromLink], p.d.linkTypes[p.pkt.egress])
+//@   # C15
+//@   ensures result == pForward && !dstLocal ==> lastIsUp && lastIsUpLink == p.d.interfaces[p.pkt.egress]
